@@ -1957,3 +1957,441 @@ Qed.
 Lemma model_fuel_step script capt i s :
   exists s', step (script_oracle script) capt (model_fuel script + input_depth i) s i = Some s'.
 Proof. apply step_total; unfold model_fuel; lia. Qed.
+
+(* ================================================================ the unexcused clauses of the
+   observation predicate hold for every run of the model *)
+
+Section Obs.
+Variable oracle : list entry -> wid -> event -> phase -> cmd.
+Variable capturer : wid -> bool.
+
+(* ---------------------------------------------------------------- focus_after *)
+
+Lemma focus_after_app f a b : focus_after f (a ++ b) = focus_after (focus_after f a) b.
+Proof. unfold focus_after. apply fold_left_app. Qed.
+
+Lemma focus_after_cons_non f x d : is_focusin_entry x = false -> focus_after f (x :: d) = focus_after f d.
+Proof. unfold focus_after. cbn [fold_left]. intros ->. reflexivity. Qed.
+
+Lemma focus_after_cons_in f x d : is_focusin_entry x = true -> focus_after f (x :: d) = focus_after (e_wid x) d.
+Proof. unfold focus_after. cbn [fold_left]. intros ->. reflexivity. Qed.
+
+Definition K_fa (c c' : core) : Prop :=
+  exists D, log c' = log c ++ D /\ focused c' = focus_after (focused c) D.
+
+Lemma K_fa_refl c : K_fa c c.
+Proof. exists []. rewrite app_nil_r. split; reflexivity. Qed.
+
+Lemma K_fa_trans a b c : K_fa a b -> K_fa b c -> K_fa a c.
+Proof.
+  intros (D1 & L1 & F1) (D2 & L2 & F2). exists (D1 ++ D2). rewrite L2, L1, app_assoc. split; [reflexivity|].
+  rewrite focus_after_app, <- F1. exact F2.
+Qed.
+
+Lemma K_fa_same c c' : log c' = log c -> focused c' = focused c -> K_fa c c'.
+Proof. intros L F. exists []. rewrite app_nil_r. split; [exact L|exact F]. Qed.
+
+Lemma K_fa_focus_pair c e1 c1 D1 w e2 c' D2 :
+  is_focusin_entry e1 = false -> is_focusin_entry e2 = true -> e_wid e2 = w ->
+  log c1 = (log c ++ [e1]) ++ D1 -> focused c1 = focus_after (focused c) D1 ->
+  log c' = (log c1 ++ [e2]) ++ D2 -> focused c' = focus_after w D2 ->
+  K_fa c c'.
+Proof.
+  intros N1 N2 Ew L1 F1 L2 F2. exists ((e1 :: D1) ++ e2 :: D2). split.
+  - rewrite L2, L1, <- !app_assoc. reflexivity.
+  - rewrite focus_after_app, (focus_after_cons_non _ _ _ N1), <- F1, (focus_after_cons_in _ _ _ N2), Ew. exact F2.
+Qed.
+
+Lemma handle_cmd_fa fuel s c s' : handle_cmd oracle fuel s c = Some s' -> K_fa s s'.
+Proof.
+  revert fuel s c s'. apply (handle_cmd_rel oracle (fun s c s' => K_fa s s')).
+  - intros; apply K_fa_refl.
+  - intros s c _. apply K_fa_same; [apply apply_leaf_log|apply apply_leaf_focused].
+  - intros s b l s' H. induction H as [s|s x s1 l s2 K1 _ K2]; [apply K_fa_refl|eapply K_fa_trans; eauto].
+  - intros s w _. apply K_fa_same; reflexivity.
+  - intros s w s1 s2 Hne s0 r1 (D1 & L1 & F1) s1' r2 (D2 & L2 & F2).
+    cbn [focused s0 add_eff add_log log set_focused s1'] in *.
+    eapply (K_fa_focus_pair s _ s1 D1 w _ s2 D2); [| | |exact L1|exact F1|exact L2|exact F2]; reflexivity.
+Qed.
+
+Lemma call_fa fuel c w ev ph c' :
+  is_focus_ev ev = false -> call oracle fuel c w ev ph = Some c' -> K_fa c c'.
+Proof.
+  unfold call. intros Hev H. destruct (handle_cmd_fa _ _ _ _ H) as (D & L & F).
+  cbn [add_log log focused] in *. exists ((w, ev, ph, oracle (log c) w ev ph) :: D).
+  split; [rewrite L, <- app_assoc; reflexivity|].
+  rewrite focus_after_cons_non; [exact F|]. unfold is_focusin_entry. cbn [e_ev fst snd].
+  destruct ev; try reflexivity; discriminate.
+Qed.
+
+Lemma focusset_fa fuel c w c1 c' :
+  call oracle fuel c (focused c) EFocusOut Target = Some c1 ->
+  call oracle fuel (set_focused c1 w) w EFocusIn Target = Some c' -> K_fa c c'.
+Proof.
+  unfold call. intros H1 H2.
+  destruct (handle_cmd_fa _ _ _ _ H1) as (D1 & L1 & F1). destruct (handle_cmd_fa _ _ _ _ H2) as (D2 & L2 & F2).
+  cbn [add_log log focused set_focused] in *.
+  eapply (K_fa_focus_pair c _ c1 D1 w _ c' D2); [| | |exact L1|exact F1|exact L2|exact F2]; reflexivity.
+Qed.
+
+Lemma K_fa_flags c b :
+  K_fa c (set_consume c b) /\ K_fa c (set_redraw c b) /\ K_fa c (set_refresh c b) /\ K_fa c (set_debug c b).
+Proof. repeat split; apply K_fa_same; reflexivity. Qed.
+
+(* the widget that holds the focus is always the one that received the last FocusIn *)
+Lemma focused_last_focusin_run fuel l s s' :
+  Forall (fun i => match i with IEv e => is_focus_ev e = false | _ => True end) l ->
+  run oracle capturer fuel s l = Some s' ->
+  exists D, log (co s') = log (co s) ++ D /\ focused (co s') = focus_after (focused (co s)) D.
+Proof.
+  intros F H.
+  refine (K_run oracle capturer K_fa (fun ev => is_focus_ev ev = false) (fun _ => True)
+            K_fa_refl K_fa_trans _ _ K_fa_flags _ _ _ _ fuel l s s' _ H).
+  - intros; eapply call_fa; eauto.
+  - intros; eapply handle_cmd_fa; eauto.
+  - intros; eapply focusset_fa; eauto.
+  - split; reflexivity.
+  - reflexivity.
+  - reflexivity.
+  - eapply Forall_impl; [|exact F]. intros i Hi. destruct i; cbn; auto.
+Qed.
+
+Lemma focused_last_focusin_step fuel s i s' :
+  match i with IEv e => is_focus_ev e = false | _ => True end ->
+  step oracle capturer fuel s i = Some s' ->
+  exists D, log (co s') = log (co s) ++ D /\ focused (co s') = focus_after (focused (co s)) D.
+Proof.
+  intros Hi H.
+  refine (K_step oracle capturer K_fa (fun ev => is_focus_ev ev = false) (fun _ => True)
+            K_fa_refl K_fa_trans _ _ K_fa_flags _ _ _ _ fuel s i s' _ H).
+  - intros; eapply call_fa; eauto.
+  - intros; eapply handle_cmd_fa; eauto.
+  - intros; eapply focusset_fa; eauto.
+  - split; reflexivity.
+  - reflexivity.
+  - reflexivity.
+  - destruct i; cbn; auto.
+Qed.
+
+Lemma route_fa fuel l c c' b :
+  Forall (fun x : call3 => is_focus_ev (snd (fst x)) = false) l ->
+  route oracle fuel c l = Some (c', b) -> K_fa c c'.
+Proof.
+  apply (K_route oracle K_fa (fun ev => is_focus_ev ev = false)).
+  - apply K_fa_refl.
+  - apply K_fa_trans.
+  - intros; eapply call_fa; eauto.
+  - apply K_fa_flags.
+Qed.
+
+(* ---------------------------------------------------------------- key_route_obs *)
+
+Lemma focus_entry_no_target ev x : is_focus_ev ev = false -> focus_entry x = true -> is_target_of ev x = false.
+Proof.
+  intros Hev Hx. unfold is_target_of. destruct (event_eqb (e_ev x) ev) eqn:E; [|reflexivity].
+  apply event_eqb_eq in E. unfold focus_entry in Hx. apply andb_true_iff in Hx as [Hx _].
+  rewrite E in Hx. congruence.
+Qed.
+
+Lemma all_focus_no_target ev d : is_focus_ev ev = false -> all_focus d -> Forall (fun x => is_target_of ev x = false) d.
+Proof. intros Hev F. eapply Forall_impl; [|exact F]. intros x Hx. apply focus_entry_no_target; auto. Qed.
+
+Lemma routedI_no_target ev l D b :
+  is_focus_ev ev = false -> routedI l D b ->
+  Forall (fun c : call3 => phase_eqb (snd c) Target = false) l ->
+  Forall (fun x => is_target_of ev x = false) D.
+Proof.
+  intros Hev H. induction H as [|w ev0 ph r nested l F _|w ev0 ph r nested l D b F _ _ IH]; intros Hl.
+  - constructor.
+  - inversion Hl as [|? ? Hp _]; subst. cbn [snd] in Hp. constructor.
+    + unfold is_target_of. cbn [e_ph e_ev fst snd]. rewrite Hp. apply andb_false_r.
+    + apply all_focus_no_target; auto.
+  - inversion Hl as [|? ? Hp Hl']; subst. cbn [snd] in Hp. constructor.
+    + unfold is_target_of. cbn [e_ph e_ev fst snd]. rewrite Hp. apply andb_false_r.
+    + apply Forall_app. split; [apply all_focus_no_target; auto|apply IH; exact Hl'].
+Qed.
+
+Lemma before_target_app ev D1 x R :
+  Forall (fun x => is_target_of ev x = false) D1 -> is_target_of ev x = true ->
+  before_target ev (D1 ++ x :: R) = D1.
+Proof.
+  intros F Hx. induction F as [|a D1 Ha _ IH]; cbn [app before_target].
+  - now rewrite Hx.
+  - rewrite Ha, IH. reflexivity.
+Qed.
+
+Lemma capture_calls_phase ev ws :
+  Forall (fun c : call3 => phase_eqb (snd c) Target = false) (capture_calls capturer ev ws).
+Proof. unfold capture_calls. induction (filter capturer ws); cbn; constructor; auto. Qed.
+
+Lemma calls_ev_ok {A} (f : A -> wid) ev ph (l : list A) :
+  is_focus_ev ev = false ->
+  Forall (fun x : call3 => is_focus_ev (snd (fst x)) = false) (map (fun a => (f a, ev, ph)) l).
+Proof. intros H. induction l; cbn; constructor; auto. Qed.
+
+Lemma routedI_single w ev ph D b :
+  routedI [(w, ev, ph)] D b -> exists r rest, D = (w, ev, ph, r) :: rest.
+Proof. intros H. inversion H; subst; eauto. Qed.
+
+(* focusHandler.handleEvent: the calls are routed along the stored path and the target call goes
+   to the widget that holds the focus when the target phase starts *)
+Lemma key_route_obs_model fuel s ev s' :
+  is_focus_ev ev = false ->
+  focus_handle oracle capturer fuel s ev = Some s' ->
+  exists D, log (co s') = log (co s) ++ D /\
+            key_route_obs capturer (path s) (focused (co s)) ev D = true.
+Proof.
+  intros Hev H. unfold focus_handle in H.
+  remember (set_consume (co s) false) as c0 eqn:Ec0.
+  assert (Lc0 : log c0 = log (co s)) by (subst c0; reflexivity).
+  assert (Fc0 : focused c0 = focused (co s)) by (subst c0; reflexivity).
+  assert (Cc0 : f_consume c0 = false) by (subst c0; reflexivity).
+  destruct (route oracle fuel c0 (capture_calls capturer ev (path s))) as [[c1 b1]|] eqn:E1; [|discriminate].
+  cbn [obind fst snd] in H.
+  destruct (route_ext oracle _ _ _ _ _ Cc0 E1) as (D1 & e1 & X1 & C1 & R1 & _).
+  assert (L1 : log c1 = log (co s) ++ D1) by (destruct X1 as [L _]; rewrite L, Lc0; reflexivity).
+  assert (FA : focused c1 = focus_after (focused (co s)) D1).
+  { destruct (route_fa _ _ _ _ _ (calls_ev_ok _ ev Capture _ Hev) E1) as (D1' & L1' & F1').
+    rewrite Lc0 in L1'. rewrite L1 in L1'. apply app_inv_head in L1'. subst D1'. rewrite F1', Fc0. reflexivity. }
+  assert (NT : Forall (fun x => is_target_of ev x = false) D1).
+  { eapply routedI_no_target; [exact Hev|exact R1|apply capture_calls_phase]. }
+  destruct b1.
+  { injection H as <-. exists D1. split; [exact L1|]. unfold key_route_obs.
+    eapply routedI_length_b; [exact Hev|]. rewrite seq_calls_route_seq. apply routedI_app_true. exact R1. }
+  destruct (route oracle fuel c1 [(focused c1, ev, Target)]) as [[c2 b2]|] eqn:E2; [|discriminate].
+  cbn [obind fst snd] in H.
+  destruct (route_ext oracle _ _ _ _ _ C1 E2) as (D2 & e2 & X2 & C2 & R2 & _).
+  assert (L2 : log c2 = log (co s) ++ D1 ++ D2) by (destruct X2 as [L _]; rewrite L, L1, app_assoc; reflexivity).
+  assert (KT : forall R, key_target (focused (co s)) ev (D1 ++ D2 ++ R) = focused c1).
+  { intros R. destruct (routedI_single _ _ _ _ _ R2) as (r & rest & ->). unfold key_target. cbn [app].
+    rewrite before_target_app; [symmetry; exact FA|exact NT|].
+    unfold is_target_of. cbn [e_ev e_ph fst snd]. now rewrite event_eqb_refl. }
+  destruct b2.
+  { injection H as <-. exists (D1 ++ D2). split; [exact L2|]. unfold key_route_obs.
+    eapply routedI_length_b; [exact Hev|]. rewrite seq_calls_route_seq.
+    replace (D1 ++ D2) with (D1 ++ D2 ++ []) at 1 by now rewrite app_nil_r.
+    rewrite KT. apply routedI_app_false; [exact R1|].
+    apply (routedI_app_true _ (bubble_calls ev (path s))) in R2. exact R2. }
+  destruct (route oracle fuel c2 (bubble_calls ev (path s))) as [[c3 b3]|] eqn:E3; [|discriminate].
+  cbn [obind fst snd] in H. injection H as <-.
+  destruct (route_ext oracle _ _ _ _ _ C2 E3) as (D3 & e3 & X3 & C3 & R3 & _).
+  exists (D1 ++ D2 ++ D3). split.
+  - destruct X3 as [L _]. cbn [co with_co]. rewrite L, L2, <- !app_assoc. reflexivity.
+  - unfold key_route_obs. eapply routedI_length_b; [exact Hev|]. rewrite seq_calls_route_seq, KT.
+    apply routedI_app_false; [exact R1|]. apply routedI_app_false; [exact R2|exact R3].
+Qed.
+
+(* ---------------------------------------------------------------- mouse_route_obs *)
+
+Lemma seg_hover_or_focus l D :
+  seg l D -> Forall (fun c : call3 => is_hover_ev (snd (fst c)) = true) l ->
+  Forall (fun x => is_hover_ev (e_ev x) = true \/ focus_entry x = true) D.
+Proof.
+  induction 1 as [|w ev ph r nested l D F _ IH]; intros Hl; [constructor|].
+  inversion Hl as [|? ? Hev Hl']; subst. cbn [fst snd] in Hev. constructor; [left; exact Hev|].
+  apply Forall_app. split; [|apply IH; exact Hl'].
+  eapply Forall_impl; [|exact F]. intros x Hx. right. exact Hx.
+Qed.
+
+Lemma hover_calls_all_hover old new :
+  Forall (fun c : call3 => is_hover_ev (snd (fst c)) = true) (hover_calls old new).
+Proof.
+  unfold hover_calls. apply Forall_app. split.
+  - induction (filter (fun h => negb (hit_mem h new)) old); cbn; constructor; auto.
+  - induction (filter (fun h => negb (hit_mem h old)) new); cbn; constructor; auto.
+Qed.
+
+Lemma routedI_not_hover l D b :
+  routedI l D b -> Forall (fun c : call3 => is_hover_ev (snd (fst c)) = false) l ->
+  Forall (fun x => is_hover_ev (e_ev x) = false) D.
+Proof.
+  induction 1 as [|w ev ph r nested l F _|w ev ph r nested l D b F _ _ IH]; intros Hl; [constructor| |];
+    inversion Hl as [|? ? Hev Hl']; subst; cbn [fst snd] in Hev.
+  - constructor; [exact Hev|]. eapply Forall_impl; [|exact F]. intros x Hx. apply focus_entry_not_hover. exact Hx.
+  - constructor; [exact Hev|]. apply Forall_app. split; [|apply IH; exact Hl'].
+    eapply Forall_impl; [|exact F]. intros x Hx. apply focus_entry_not_hover. exact Hx.
+Qed.
+
+Lemma filter_all {A} (P : A -> bool) l : Forall (fun x => P x = true) l -> filter P l = l.
+Proof. induction 1 as [|a l Ha _ IH]; cbn; [reflexivity|]. now rewrite Ha, IH. Qed.
+
+Lemma mouse_rd_app Dh Dr :
+  Forall (fun x => is_hover_ev (e_ev x) = true \/ focus_entry x = true) Dh ->
+  Forall (fun x => is_hover_ev (e_ev x) = false) Dr ->
+  match Dr with [] => True | x :: _ => focus_entry x = false end ->
+  mouse_rd (Dh ++ Dr) = Dr.
+Proof.
+  intros Fh Fr Hd. unfold mouse_rd. rewrite filter_app.
+  rewrite (filter_all _ Dr) by (eapply Forall_impl; [|exact Fr]; cbn; intros x ->; reflexivity).
+  induction Fh as [|a Dh Ha _ IH]; cbn [filter app].
+  - destruct Dr as [|x Dr]; [reflexivity|]. cbn [drop_focus]. now rewrite Hd.
+  - destruct Ha as [Ha|Ha].
+    + rewrite Ha. cbn [negb]. exact IH.
+    + rewrite (focus_entry_not_hover _ Ha). cbn [negb app drop_focus]. rewrite Ha. exact IH.
+Qed.
+
+(* mouseHandler.handleEvent: routed along the surfaces under the pointer, the target is the
+   deepest widget of the topmost chain *)
+Lemma mouse_route_obs_model fuel s c r s' :
+  wf16 (last_frame s) ->
+  mouse_handle oracle capturer fuel s c r = Some s' ->
+  exists D, log (co s') = log (co s) ++ D /\ mouse_route_obs capturer (last_frame s) c r D = true.
+Proof.
+  intros W H.
+  destruct (mouse_route_order oracle capturer _ _ _ _ _ H) as (Dh & Dr & e & b & (L & _) & _ & S & _ & _ & _ & _ & _ & M).
+  exists (Dh ++ Dr). split; [exact L|]. unfold mouse_route_obs.
+  pose proof (seg_hover_or_focus _ _ S (hover_calls_all_hover _ _)) as Fh.
+  rewrite <- (hits_at_pointer_all _ c r W).
+  destruct (map h_wid (hits_at (last_frame s) (c, r))) as [|w0 ws] eqn:Eh.
+  - subst Dr. rewrite mouse_rd_app; [reflexivity|exact Fh|constructor|exact I].
+  - destruct M as [RI _].
+    rewrite mouse_rd_app; [|exact Fh| |].
+    + assert (El : last (pointer_chain (last_frame s) c r) 0 = last (w0 :: ws) 0).
+      { rewrite <- Eh, (hits_at_pointer_all _ c r W). unfold pointer_chain, pointer_all.
+        destruct (contains_abs 0 0 (last_frame s) c r); [|reflexivity]. symmetry. apply under_all_last. }
+      rewrite El. eapply routedI_length_b; [reflexivity|exact RI].
+    + eapply routedI_not_hover; [exact RI|]. apply seq_calls_not_hover. reflexivity.
+    + eapply routedI_head; [|exact RI]. reflexivity.
+Qed.
+
+(* ---------------------------------------------------------------- the hover observer *)
+
+Definition hov_tracks (h : hov_st) (s : st) : Prop :=
+  hv_frame h = last_frame s /\ hv_mouse h = mouse s /\ hv_set h = map h_wid (last_hits s) /\
+  wf16 (last_frame s).
+
+Definition tree_wf (i : input) : Prop := match tree_of_input i with Some t => wf16 t | None => True end.
+
+Lemma insert_z_Forall (P : Z * Z * Z * tree -> Prop) k l : P k -> Forall P l -> Forall P (insert_z k l).
+Proof.
+  intros Hk Hl. eapply Permutation_Forall; [apply Permutation_sym, insert_z_perm|]. constructor; assumption.
+Qed.
+
+Lemma sort_tree_wf16 t : wf16 t -> wf16 (sort_tree t).
+Proof.
+  induction t as [w x y kids IH] using tree_ind'. intros W. inversion W as [? ? ? ? Hx Hy Wk]; subst.
+  cbn [sort_tree]. constructor; [exact Hx|exact Hy|].
+  match goal with |- Forall _ (?G kids []) =>
+    assert (E : forall acc, Forall (fun k => wf16 (k_tree k)) acc -> Forall (fun k => wf16 (k_tree k)) (G kids acc)) end.
+  { clear W. induction IH as [|k kids Hk _ IHk]; intros acc Fa; [exact Fa|].
+    inversion Wk as [|? ? Wk0 Wk']; subst. apply (IHk Wk').
+    apply insert_z_Forall; [cbn [k_tree snd]; apply Hk; exact Wk0|exact Fa]. }
+  apply E. constructor.
+Qed.
+
+Lemma tracks_same h s s' :
+  hov_tracks h s -> last_frame s' = last_frame s -> last_hits s' = last_hits s -> mouse s' = mouse s ->
+  hov_tracks h s'.
+Proof. intros (A & B & C & D) E1 E2 E3. unfold hov_tracks. rewrite E1, E2, E3. auto. Qed.
+
+Lemma tracks_frame h s t :
+  hov_tracks h s -> wf16 t -> hov_tracks (mkHov t (hv_mouse h) (hv_set h)) (with_frame s t).
+Proof. intros (A & B & C & D) W. unfold hov_tracks. cbn. auto. Qed.
+
+Lemma tracks_mouse_update fuel s t s' h :
+  hov_tracks h s -> wf16 t -> mouse_update oracle fuel s t = Some s' ->
+  hov_tracks (mkHov (hv_frame h) (hv_mouse h) (hov_at t (hv_mouse h) (hv_set h))) s'.
+Proof.
+  intros (A & B & C & D) W H. pose proof (mouse_update_spec oracle _ _ _ _ H) as U.
+  destruct (mouse s) as [[c r]|] eqn:Em.
+  - destruct U as (D0 & e & _ & _ & _ & Lh & _ & _ & Fr & Mo).
+    unfold hov_tracks. cbn [hv_frame hv_mouse hv_set]. rewrite B. cbn [hov_at].
+    split; [congruence|]. split; [congruence|]. split; [|rewrite Fr; exact D].
+    rewrite Lh. symmetry. apply hits_at_pointer_all. exact W.
+  - subst s'. unfold hov_tracks. cbn [hv_frame hv_mouse hv_set]. rewrite B. cbn [hov_at]. rewrite Em. auto.
+Qed.
+
+Lemma tracks_mouse_exit fuel s s' h :
+  hov_tracks h s -> mouse_exit oracle fuel s = Some s' ->
+  hov_tracks (mkHov (hv_frame h) (hv_mouse h) []) s'.
+Proof.
+  intros (A & B & C & D) H. destruct (mouse_exit_spec oracle _ _ _ H) as (D0 & _ & _ & Lh & _ & Fr & Mo).
+  unfold hov_tracks. cbn [hv_frame hv_mouse hv_set]. rewrite Lh, Fr, Mo. auto.
+Qed.
+
+Lemma tracks_update_path fuel s t s' h :
+  hov_tracks h s -> update_path oracle fuel s t = Some s' -> hov_tracks h s'.
+Proof.
+  intros T H. destruct (update_path_shape oracle _ _ _ _ H) as (D & _ & _ & _ & Fr & Lh & Mo).
+  eapply tracks_same; eauto.
+Qed.
+
+Lemma tracks_focus_handle fuel s ev s' h :
+  hov_tracks h s -> focus_handle oracle capturer fuel s ev = Some s' -> hov_tracks h s'.
+Proof.
+  intros T H. destruct (key_route_order oracle capturer _ _ _ _ H) as (D & e & tgt & b & _ & _ & (_ & _ & Fr & Lh & Mo) & _).
+  eapply tracks_same; eauto.
+Qed.
+
+(* the observer's tracker follows the mouse handler's state through every input *)
+Lemma hov_tracks_step fuel s i s' h :
+  hov_tracks h s -> tree_wf i -> step oracle capturer fuel s i = Some s' ->
+  hov_tracks (hov_track (f_redraw (co s)) h i) s'.
+Proof.
+  intros T Wt H. destruct i; cbn [step] in H; cbn [hov_track]; unfold tree_wf in Wt; cbn [tree_of_input] in Wt.
+  - eapply tracks_focus_handle; eauto.
+  - destruct (mouse_route_order oracle capturer _ _ _ _ _ H) as (Dh & Dr & e & b & _ & _ & _ & Lh & Mo & _ & _ & Fr & _).
+    destruct T as (A & B & C & D). unfold hov_tracks. cbn [hv_frame hv_mouse hv_set].
+    rewrite Lh, Mo, Fr, A. split; [reflexivity|]. split; [reflexivity|]. split; [|exact D].
+    symmetry. apply hits_at_pointer_all. exact D.
+  - destruct (call oracle fuel (co s) (root s) EEnter Target) as [c|]; [|discriminate].
+    cbn [obind] in H. injection H as <-. eapply tracks_same; eauto.
+  - assert (T0 : hov_tracks (mkHov (hv_frame h) None (hv_set h)) (with_mouse s None)).
+    { destruct T as (A & B & C & D). unfold hov_tracks. cbn. auto. }
+    apply (tracks_mouse_exit _ _ _ _ T0 H).
+  - injection H as <-. eapply tracks_same; eauto.
+  - unfold frame in H. destruct (f_redraw (co s)); cbn [negb] in H; [|injection H as <-; exact T].
+    destruct (mouse_update oracle fuel (with_co s (set_redraw (co s) false)) t) as [s1|] eqn:E1; [|discriminate].
+    cbn [obind] in H.
+    match type of H with obind (update_path _ _ ?s2 _) _ = _ => destruct (update_path oracle fuel s2 (sort_tree t)) as [s3|] eqn:E3; [|discriminate] end.
+    cbn [obind] in H. injection H as <-.
+    assert (T0 : hov_tracks h (with_co s (set_redraw (co s) false))) by (eapply tracks_same; eauto).
+    pose proof (tracks_mouse_update _ _ _ _ _ T0 Wt E1) as T1.
+    assert (T2 : hov_tracks (mkHov (hv_frame h) (hv_mouse h) (hov_at t (hv_mouse h) (hv_set h))) s3).
+    { eapply tracks_update_path; [|exact E3]. eapply tracks_same; [exact T1| | |]; reflexivity. }
+    apply (tracks_frame _ _ (sort_tree t) T2). apply sort_tree_wf16. exact Wt.
+  - destruct (focus_handle oracle capturer fuel s EInit) as [s1|] eqn:E; [|discriminate].
+    cbn [obind] in H. injection H as <-. apply tracks_frame; [|exact Wt]. eapply tracks_focus_handle; eauto.
+  - eapply tracks_mouse_update; eauto.
+  - eapply tracks_update_path; eauto.
+  - injection H as <-. apply tracks_frame; auto.
+  - destruct (update_path oracle fuel s (sort_tree t)) as [s1|] eqn:E; [|discriminate].
+    cbn [obind] in H. injection H as <-. apply tracks_frame; [|apply sort_tree_wf16; exact Wt].
+    eapply tracks_update_path; eauto.
+  - eapply tracks_mouse_exit; eauto.
+  - injection H as <-. destruct T as (A & B & C & D). unfold hov_tracks. cbn. auto.
+  - destruct (focus_widget oracle fuel (co s) w) as [c|]; [|discriminate].
+    cbn [obind] in H. injection H as <-. eapply tracks_same; eauto.
+  - destruct (handle_cmd oracle fuel (co s) c) as [c'|]; [|discriminate].
+    cbn [obind] in H. injection H as <-. eapply tracks_same; eauto.
+Qed.
+
+Definition is_termfocusin (i : input) : bool := match i with ITermFocusIn => true | _ => false end.
+
+(* hover_obs holds after every history that starts with nobody hovered *)
+Lemma hover_obs_model fuel r l s0 s' h :
+  root s0 = r -> log (co s0) = [] -> last_hits s0 = [] -> NoDup (ids (last_frame s0)) ->
+  Forall (fun i => match tree_of_input i with Some t => NoDup (ids t) | None => True end) l ->
+  Forall (fun i => match i with IEv e => is_hover_ev e = false | _ => True end) l ->
+  run oracle capturer fuel s0 l = Some s' ->
+  hov_tracks h s' ->
+  hover_obs (fun w => (w =? r) && existsb is_termfocusin l) (log (co s')) (hv_set h) = true.
+Proof.
+  intros R0 L0 H0 N0 Ft Fe H (_ & _ & Hs & _).
+  pose (excl := fun x : wid => x = r /\ In ITermFocusIn l).
+  assert (J0 : hov_inv excl r s0).
+  { unfold hov_inv. rewrite L0, H0. repeat split; auto. constructor. }
+  assert (J : hov_inv excl r s').
+  { eapply (hov_run oracle capturer); [exact J0| |exact H].
+    rewrite Forall_forall in *. intros i Hi. split; [apply Ft; exact Hi|].
+    specialize (Fe i Hi). destruct i; auto. split; [reflexivity|exact Hi]. }
+  destruct J as (_ & _ & _ & Hv).
+  unfold hover_obs. apply forallb_forall. intros w _.
+  destruct ((w =? r) && existsb is_termfocusin l) eqn:E; [apply orb_true_r|]. rewrite orb_false_r.
+  rewrite Hv.
+  - rewrite Hs. unfold wmem. cbn [option_eqb]. apply Bool.eqb_reflx.
+  - unfold excl. intros [-> Hin]. rewrite Z.eqb_refl in E. cbn [andb] in E.
+    assert (existsb is_termfocusin l = true) by (apply existsb_exists; exists ITermFocusIn; auto). congruence.
+Qed.
+
+End Obs.
